@@ -247,7 +247,8 @@ def thresholds_unambiguous(blocks, tol_block, tol):
 def gen_spectrum(rng, nprng, sym, signed=False):
     nsec = rng.choice((1, 1, 2, 2, 3, 3, 4, 5))
     leg = D.gen_leg(rng, sym, nsec=(nsec, nsec), dmax=6)
-    pat = rng.choice(("dyadic", "dyadic", "dyadic+zeros", "all-equal", "random", "random+dups", "random+zeros", "wide", "zeros-only", "halves"))
+    pat = rng.choice(("dyadic", "dyadic", "dyadic+zeros", "all-equal", "random", "random+dups", "random+zeros", "wide", "zeros-only", "halves",
+                      "denormal", "denormal+zeros", "huge", "tiny+zeros"))
     secs = []
     for t, Dt in leg.sectors:
         if rng.random() < 0.25:
@@ -267,6 +268,12 @@ def gen_spectrum(rng, nprng, sym, signed=False):
         vals = [10.0 ** (-16 * rng.random()) for _ in range(total)]
     elif pat == "zeros-only":
         vals = [0.0] * total
+    elif pat.startswith("denormal"):
+        vals = [rng.choice((5e-324, 1e-323, 1.5e-323, 1e-310, 2e-310, 2.2250738585072014e-308, 4.450147717014403e-308)) for _ in range(total)]
+    elif pat == "huge":
+        vals = [1e300 * 2.0 ** -rng.randint(0, 6) for _ in range(total)]
+    elif pat.startswith("tiny"):
+        vals = [1e-200 * 2.0 ** -rng.randint(0, 6) for _ in range(total)]
     else:
         vals = [float(x) for x in nprng.random(total)]
         if pat == "random+dups":
@@ -275,7 +282,7 @@ def gen_spectrum(rng, nprng, sym, signed=False):
     if pat.endswith("zeros"):
         for i in range(total):
             if rng.random() < 0.3:
-                vals[i] = 0.0
+                vals[i] = rng.choice((0.0, 0.0, -0.0))
     if signed:
         vals = [v * rng.choice((1, -1, -1)) for v in vals]
     blocks, lo = {}, 0
@@ -307,7 +314,7 @@ def ratio_pool(rng, vals):
     return out
 
 
-def gen_limits(rng, blocks, signed=False, cover=True):
+def gen_limits(rng, blocks, signed=False, cover=True, empty_ok=False):
     """One parameter set of the grid; returns (kwargs for the library, descriptor)."""
     ts = sorted(blocks)
     allv = cat(blocks[t] for t in ts)
@@ -315,13 +322,18 @@ def gen_limits(rng, blocks, signed=False, cover=True):
     npos = int(np.sum(allv > 0))
     maxD = max((len(blocks[t]) for t in ts), default=0)
     kw, desc = {}, {}
+    if rng.random() < 0.04:
+        return {}, {}                      # truncation_mask(S): every limit omitted
+    shuf = lambda seq: rng.sample(list(seq), len(seq))      # user-controlled container order: dictionaries in any insertion order
     if rng.random() < 0.6:
         kw["D_total"] = rng.choice((INF, 0, 1, 2, 3, max(ntot - 1, 0), ntot, ntot + 1, npos, max(npos - 1, 0), rng.randint(0, ntot + 1)))
     if rng.random() < 0.6:
         c = rng.random()
         if c < 0.35:
             sub = ts if cover else [t for t in ts if rng.random() < 0.6]
-            kw["D_block"] = {t: rng.choice((0, 1, 2, len(blocks[t]), len(blocks[t]) + 1, max(len(blocks[t]) - 1, 0), INF)) for t in sub}
+            kw["D_block"] = {t: rng.choice((0, 1, 2, len(blocks[t]), len(blocks[t]) + 1, max(len(blocks[t]) - 1, 0), INF)) for t in shuf(sub)}
+            if empty_ok and rng.random() < 0.08:
+                kw["D_block"] = {}
         else:
             kw["D_block"] = rng.choice((INF, 0, 1, 1, 2, 2, 3, max(maxD - 1, 0), maxD))
     if signed:
@@ -334,7 +346,7 @@ def gen_limits(rng, blocks, signed=False, cover=True):
         c = rng.random()
         if c < 0.3:
             sub = ts if cover else [t for t in ts if rng.random() < 0.6]
-            kw["tol_block"] = {t: rng.choice([0, 0.5, 1, 0.25, INF] + ratio_pool(rng, blocks[t])) for t in sub}
+            kw["tol_block"] = {t: rng.choice([0, 0.5, 1, 0.25, INF] + ratio_pool(rng, blocks[t])) for t in shuf(sub)}
         else:
             t0 = rng.choice(ts) if ts else None
             kw["tol_block"] = rng.choice([0, 0.5, 1, 0.25, 1e-3, 2.0, INF] + (ratio_pool(rng, blocks[t0]) if t0 is not None else []))
@@ -379,6 +391,16 @@ def read_mask(ctx, fn, m, S, blocks, w):
 def count_params(ctx, kw, spec, blocks):
     for k, v in kw.items():
         ctx.count(f"param:{k}" + ("-dict" if isinstance(v, dict) else ""))
+    for k, v in kw.items():
+        vals = list(v.values()) if isinstance(v, dict) else [v]
+        if any(x == 0 for x in vals):
+            ctx.count(f"value:{k}=0")
+        if k in ("tol", "tol_block") and any(1 <= x < INF for x in vals):
+            ctx.count(f"value:{k}>=1")
+        if any(x == INF for x in vals):
+            ctx.count(f"value:{k}=inf")
+    if not kw:
+        ctx.count("mask_no_limits")
     b, tie = spec.binds()
     for x in b:
         ctx.count(f"param:{x}-binds")
@@ -426,11 +448,17 @@ def mask_case(ctx, idx, sym):
     judged = 0
     for j in range(8):
         cover = rng.random() < 0.9
-        kw, _ = gen_limits(rng, blocks, signed, cover)
+        kw, _ = gen_limits(rng, blocks, signed, cover, empty_ok=True)
         w = {"sym": sym, "spectrum": {str(t): v.tolist() for t, v in blocks.items()}, "kwargs": kw_desc(kw), "leg_s": leg.s}
         m = yastn.truncation_mask(S, **kw) if rng.random() < 0.7 else yastn.linalg.truncation_mask(S, **kw)
         mb = read_mask(ctx, "truncation_mask", m, S, blocks, w)
         if mb is None:
+            continue
+        if kw.get("D_block") == {} and blocks:
+            # an empty per-sector dictionary lists no sector: nothing is kept (same under both svd policies, see svd_lowrank_case)
+            ctx.count("empty_dict:truncation_mask")
+            if any(np.any(x) for x in mb.values()):
+                ctx.violation("truncation_mask:empty-D_block-dict", f"truncation_mask({kw_desc(kw)}) keeps values although D_block={{}} lists no sector", w)
             continue
         if not covers(kw, blocks):
             ctx.count("unjudged:dict-does-not-cover-all-sectors")
@@ -445,6 +473,20 @@ def mask_case(ctx, idx, sym):
             ctx.count("masks_judged_signed")
         judged += 1
         structs.append(kw_struct(kw))
+        if rng.random() < 0.3:
+            # all limits are counts or RELATIVE tolerances: the kept set is invariant under S -> c S, c > 0 (exact for powers of two)
+            c = 2.0 ** rng.choice((-660, -300, -60, 60, 300, 660))
+            sb = {t: v * c for t, v in blocks.items()}
+            if all(np.all(np.isfinite(x)) and np.all(x / c == blocks[t]) for t, x in sb.items()):
+                mc = read_mask(ctx, "truncation_mask", yastn.truncation_mask(build_S(sym, leg, sb, cfg), **kw), S, blocks, w)
+                if mc is not None:
+                    ctx.count("scale_invariance_checked")
+                    if any(np.any(np.sort(blocks[t][mb[t]]) != np.sort(blocks[t][mc[t]])) if mb[t].sum() == mc[t].sum() else True for t in blocks):
+                        ctx.violation("truncation_mask:not-scale-invariant", f"truncation_mask({kw_desc(kw)}) keeps "
+                                      f"{ {str(t): blocks[t][mb[t]].tolist() for t in blocks} } of S but "
+                                      f"{ {str(t): blocks[t][mc[t]].tolist() for t in blocks} } (rescaled) of {c:g} * S", w)
+            else:
+                ctx.count("unjudged:scaling-not-exact")
     # the same relative tolerance as tol and as tol_block on a single-sector spectrum: same decision at an exact threshold
     if len(blocks) == 1 and not signed:
         (t, v), = blocks.items()
@@ -892,7 +934,7 @@ def svd_trunc_case(ctx, idx, sym):
     # error identity on the dense truth
     disc = collections.Counter(cat(full_raw.values()).tolist())
     disc.subtract(collections.Counter(cat(kept_raw.values()).tolist()))
-    dn = float(np.sqrt(sum(v * v * n for v, n in disc.items() if n > 0)))
+    dn = F.norm_of(disc.items())
     err = F.fro((Um * s[None, :]) @ Vm - sec.M)
     ctx.count("error_identity_checked")
     ctx.count("error_identity_nonzero", int(dn > 0))
@@ -909,7 +951,7 @@ def sector_dict(ctx, rng, sym, full_raw, counter):
     """Per-sector limits covering every sector of the spectrum, in general different for t and -t."""
     ts = sorted(full_raw)
     lim = {t: rng.choice((0, 1, 2, 3, len(full_raw[t]), len(full_raw[t]) + 1, max(len(full_raw[t]) - 1, 0)) + ((6, 11, 17) if len(full_raw[t]) > 30 else ()))
-           for t in ts}
+           for t in rng.sample(ts, len(ts))}          # any insertion order
     if all(v == 0 for v in lim.values()):
         lim[ts[0]] = 1
     if any(lim.get(G.neg(sym, t)) != lim[t] for t in ts):
@@ -1027,7 +1069,7 @@ def svd_lowrank_case(ctx, idx, sym):
     ctx.count("lowrank_judged")
     disc = collections.Counter(cat(full_raw.values()).tolist())
     disc.subtract(collections.Counter(cat(kept_raw.values()).tolist()))
-    dn = float(np.sqrt(sum(v * v * n for v, n in disc.items() if n > 0)))
+    dn = F.norm_of(disc.items())
     err = F.fro((Um * s[None, :]) @ Vm - sec.M)
     ctx.count("error_identity_checked")
     name = "svd_with_truncation:lowrank:error-identity" + (":arpack" if arpack else "")
@@ -1122,7 +1164,7 @@ def eigh_trunc_case(ctx, idx, sym):
     ctx.count("decompositions_judged")
     disc = collections.Counter(cat(fullS.values()).tolist())
     disc.subtract(collections.Counter(cat(keptS.values()).tolist()))
-    dn = float(np.sqrt(sum(v * v * n for v, n in disc.items() if n > 0)))
+    dn = F.norm_of(disc.items())
     err = F.fro((Um * s[None, :]) @ Um.conj().T - sec.M)
     ctx.count("error_identity_checked")
     ctx.count("error_identity_nonzero", int(dn > 0))
